@@ -171,8 +171,8 @@ fastCmp:
     CMPQ AX, $8
     JL slowCmp
     MOVQ (DI), DX
-    XORQ DX, (SI)
-    ORQ (SI),BX
+    XORQ (SI), DX
+    ORQ DX, BX
     ADDQ $8, DI
     ADDQ $8, SI
     SUBQ $8, AX
@@ -181,8 +181,8 @@ slowCmp:
     CMPQ AX, $1
     JL done
     MOVB (DI), DX
-    XORB DX, (SI)
-    ORB (SI), CX
+    XORB (SI), DX
+    ORB DX, CX
     ADDQ $1, DI
     ADDQ $1, SI
     SUBQ $1, AX
